@@ -204,6 +204,20 @@ Example C18_doc_save_repaired :
   /\ option_map fst (sax_read repaired (et_write repaired (after repaired))) = Some ["M0,0 L1,1"; "M5,5 L6,6"].
 Proof. vm_compute. repeat split. Qed.
 
+(* ---- SaxDocument load -> save -> reload: generate_dom writes the recorded
+   matrix as transform="matrix(m00 m10 m01 m11 m02 m12)", which by SVG 1.1 7.6
+   means the recorded matrix again (in particular for non-symmetric ones:
+   rotations, skews); matrices live in Model/SvgTree.v ---- *)
+From SVP Require Base.Num Model.SvgTree Proofs.SvgTreeAlg.
+Theorem C18_sax_generate_dom_matrix :
+  forall (K : Type) (N : Num.Num K) (M : @SvgTree.mat K),
+    SvgTreeAlg.affine N M ->
+    match SvgTree.sax_dom_matrix M with
+    | [a; b; c; d; e; f] => SvgTree.titem_spec N (SvgTree.TMatrix a b c d e f) = M
+    | _ => False
+    end.
+Proof. exact (fun K N => SvgTreeAlg.sax_dom_matrix_spec N). Qed.
+
 (* non-vacuity *)
 Example C18_nonvacuous :
   svg2paths_read (wsvg_file ["M 0,0 L 1,1"; "M 2,2 L 3,3"]
@@ -219,6 +233,7 @@ Print Assumptions C18_wsvg_svg_attributes.
 Print Assumptions C18_wsvg_roundtrip_partial.
 Print Assumptions C18_sax_style_total.
 Print Assumptions C18_save_reload.
+Print Assumptions C18_sax_generate_dom_matrix.
 Print Assumptions C18_doc_history_refuted.
 Print Assumptions C18_doc_history.
 Print Assumptions C18_doc_add_path_refuted.
